@@ -296,11 +296,10 @@ type openEl struct {
 func isNCName(n string) bool { return n != "" && !strings.Contains(n, ":") }
 
 // strictCheck returns nil for a well-formed, namespace-well-formed document without DOCTYPE;
-// (nil, skipped=true) when the text has a DOCTYPE (not judged here).
+// (nil, skipped=true) when the text has a DOCTYPE in its prolog (not judged here). The characters "<!DOCTYPE"
+// inside a comment, a CDATA section or a processing instruction are just text; as markup inside or after the
+// root element they make the document ill-formed.
 func strictCheck(data []byte) (skipped bool, err error) {
-	if bytes.Contains(data, []byte("<!DOCTYPE")) {
-		return true, nil
-	}
 	s := &scanner{d: data}
 	if s.has("\xef\xbb\xbf") {
 		s.i += 3
@@ -364,6 +363,13 @@ func strictCheck(data []byte) (skipped bool, err error) {
 				}
 				s.i += w
 			}
+		case c == '<' && s.has("<!DOCTYPE"):
+			// a document type declaration is legal in the prolog only (XML 1.0 [22]); a document that has one
+			// there is left to the encoding/xml passes, anywhere else it is not well-formed
+			if rootSeen {
+				return false, s.errf("markup declaration inside or after the root element")
+			}
+			return true, nil
 		case c == '<' && s.has("</"):
 			if !inContent {
 				return false, s.errf("end tag without open element")
